@@ -96,27 +96,26 @@ Proof. exact nested_file_top. Qed.
 Theorem C15_parse_names_nodup : forall (m : meta) (e : edit_actor), edit_parse m = Ok e -> names_ok (ea_script e) /\ names_ok (ea_live e).
 Proof. exact parse_names_nodup. Qed.
 
-(* family level.  FULL STATEMENT (false of the crate, F7):
-     forall e, nonempty_fam e = true -> forget (edit_parse_family (render_fam e)) = if legal_fam e then Some (denote_fam e) else None *)
-Theorem C15_family_parse_guarded : forall e : fam_ast, nonempty_fam e = true -> fam_multi e = false ->
+(* family level: lists of any length parse per the documented grammar edit(def, imp(..), trt(..)) with file(..) wrappers *)
+Theorem C15_family_parse : forall e : fam_ast, nonempty_fam e = true ->
   forget (edit_parse_family (render_fam e)) = if legal_fam e then Some (denote_fam e) else None.
-Proof. exact family_parse_guarded. Qed.
+Proof. exact family_parse_full. Qed.
 
-Theorem C15_family_edit_multi_refuted : exists e : fam_ast,
-  nonempty_fam e = true /\ fam_multi e = true /\ legal_fam e = true /\ forget (edit_parse_family (render_fam e)) <> Some (denote_fam e).
-Proof. exact family_edit_multi_refuted. Qed.
+Theorem C15_family_edit_any_length : forall l : list sitem, ne l = true -> forallb nonempty_sitem l = true ->
+  legal_sects (flatS false l) = true ->
+  edit_parse_family (render_fam (FList l)) = Ok (denote_fam (FList l)).
+Proof. exact family_edit_any_length. Qed.
 
-Theorem C15_family_edit_multi_all_rejected : forall l : list sitem, List.length l <> 1 ->
-  edit_parse_family (render_fam (FList l)) = Diag DUnexpectedNested.
-Proof. exact family_edit_multi_all_rejected. Qed.
+(* family members: edit(..) inside actor(..) is parsed with the actor grammar; bare `edit` = edit(script, live) *)
+Theorem C15_member_parse : forall e : edit_ast, nonempty e = true ->
+  forget (edit_parse_member (render e)) = if legal e then Some (denote e) else None.
+Proof. exact member_parse_grammar. Qed.
 
-(* family members.  FULL STATEMENT (false of the crate, F7):
-     forall e, nonempty e = true -> forget (edit_parse_member (render e)) = if legal e then Some (denote e) else None *)
-Theorem C15_member_edit_refuted :
-  (exists e : edit_ast, nonempty e = true /\ legal e = true /\ is_diag (edit_parse_member (render e)) = true)
-  /\ (exists e e', nonempty e = true /\ legal e = true /\ edit_parse_member (render e) = Ok e'
-        /\ ea_script e' = empty_t /\ ea_script (denote e) <> empty_t).
-Proof. exact member_edit_refuted. Qed.
+Theorem C15_member_bare_edit :
+  edit_parse_member (render EBare) = Ok (denote (EList [EPart (PSol true None); EPart (PSol false None)]))
+  /\ edit_parse_member (render EBare) = edit_parse_member (render (EList [EPart (PSol true None); EPart (PSol false None)]))
+  /\ edit_parse_member (render EFileBare) = Ok {| ea_remove := true; ea_script := all_tuples true; ea_live := all_tuples true |}.
+Proof. exact member_bare_edit. Qed.
 
 Print Assumptions C15_partition.
 Print Assumptions C15_disjoint.
@@ -131,7 +130,7 @@ Print Assumptions C15_unknown_key_top.
 Print Assumptions C15_unknown_key_nested.
 Print Assumptions C15_nested_file_top.
 Print Assumptions C15_parse_names_nodup.
-Print Assumptions C15_family_parse_guarded.
-Print Assumptions C15_family_edit_multi_refuted.
-Print Assumptions C15_family_edit_multi_all_rejected.
-Print Assumptions C15_member_edit_refuted.
+Print Assumptions C15_family_parse.
+Print Assumptions C15_family_edit_any_length.
+Print Assumptions C15_member_parse.
+Print Assumptions C15_member_bare_edit.
